@@ -46,6 +46,8 @@ RunObs(ctx, lines, obs, ok, exp) ==
        IN  RunObs([ctx EXCEPT !.env = EnvAfter(ctx, Head(lines), m, o)], Tail(lines), Tail(obs),
                   ok /\ SlotMatchesCtx(ctx, m.slot, o), Append(exp, m.slot))
 
+\* return values travel as the strings "true" / "false" (a call that panicked is recorded as "panic")
+B(x) == IF x THEN "true" ELSE "false"
 Report(i, exp) == PrintT(<<"BAD", ToJson([l |-> i, expected |-> exp])>>)
 
 CalcOf(c) ==
@@ -78,7 +80,19 @@ TNext ==
               /\ UNCHANGED <<calc, sess, run, today>>
          [] e.ev = "update_currency" ->
               /\ UpdateCurrency(e.cur, e.rate)
-              /\ Judge(e.ret = (Canon(calc, e.cur) # "none"), <<[k |-> "ret", v |-> Canon(calc, e.cur) # "none"]>>)
+              /\ Judge(e.ret = B(Canon(calc, e.cur) # "none"), <<[k |-> "ret", v |-> Canon(calc, e.cur) # "none"]>>)
+         [] e.ev = "add_rule" ->
+              /\ AddRule(e.lang, e.name, {e.pats[i] : i \in DOMAIN e.pats}, e.beh)
+              /\ Judge(e.ret = B(AddRuleRet(e.lang)), <<[k |-> "ret", v |-> AddRuleRet(e.lang)]>>)
+         [] e.ev = "delete_rule" ->
+              /\ DeleteRule(e.lang, e.name)
+              /\ Judge(e.ret = B(HasRule(calc, e.lang, e.name)), <<[k |-> "ret", v |-> HasRule(calc, e.lang, e.name)]>>)
+         [] e.ev = "add_type" ->
+              /\ AddFamily(e.name)
+              /\ Judge(e.ret = B(~HasFam(calc, e.name)), <<[k |-> "ret", v |-> ~HasFam(calc, e.name)]>>)
+         [] e.ev = "add_type_item" ->
+              /\ AddItem(e.fam, [idx |-> e.idx, up |-> e.up, down |-> e.down])
+              /\ Judge(e.ret = B(AddItemOk(calc, e.fam, e.idx)), <<[k |-> "ret", v |-> AddItemOk(calc, e.fam, e.idx)]>>)
          [] e.ev = "session_new" -> NewSession(e.s) /\ bad' = bad
          [] e.ev = "set_language" -> SetLanguage(e.s, e.lang) /\ bad' = bad
          [] e.ev = "set_text" -> SetText(e.s, e.lines) /\ bad' = bad
